@@ -157,8 +157,8 @@ theorem rm_names_subset (st st' : St) (n m : String) (he : rm st n = .ok st') (h
     intro hcon
     apply hm
     obtain ⟨q', hq', hqn⟩ := (hasName_iff' _ m).mp hcon
-    obtain ⟨q, j, hj, hqj, _, rfl⟩ := (C05.rm_lines st _ q').mp hq'
-    rw [dropItems_name] at hqn
+    obtain ⟨q, j, hj, hqj, _, hname, _, _⟩ := C05.rm_lines_origin st _ q' hq'
+    rw [hname] at hqn
     exact (hasName_iff' _ m).mpr ⟨q, List.mem_of_getElem? hqj, hqn⟩
 
 theorem rmAll_keeps_gone : ∀ (ns : List String) (st st' : St) (m : String), rmAll st ns = .ok st' →
